@@ -45,11 +45,33 @@ type placeholder struct {
 	Num         int  `json:"num"`
 }
 
-func (p *Parser) deconstructPacket(rv reflect.Value, numBuffers *int) (buffers [][]byte, err error) {
-	return p.deconstructValue(rv, numBuffers)
+// deconstruction is the state of one Encode call: the number of attachments found so far, and
+// how to put back every cell that was overwritten with a placeholder.
+type deconstruction struct {
+	numBuffers int
+	undo       []func()
 }
 
-func (p *Parser) deconstructValue(rv reflect.Value, numBuffers *int) (buffers [][]byte, err error) {
+// save records the content of a settable cell that is about to be overwritten.
+func (d *deconstruction) save(cell reflect.Value) {
+	old := reflect.New(cell.Type()).Elem()
+	old.Set(cell)
+	d.undo = append(d.undo, func() { cell.Set(old) })
+}
+
+// restore hands the values given to Encode back as they were (last write undone first).
+func (d *deconstruction) restore() {
+	for i := len(d.undo) - 1; i >= 0; i-- {
+		d.undo[i]()
+	}
+	d.undo = nil
+}
+
+func (p *Parser) deconstructPacket(rv reflect.Value, d *deconstruction) (buffers [][]byte, err error) {
+	return p.deconstructValue(rv, d)
+}
+
+func (p *Parser) deconstructValue(rv reflect.Value, d *deconstruction) (buffers [][]byte, err error) {
 	k := rv.Kind()
 	original := rv
 	if k == reflect.Interface || k == reflect.Ptr {
@@ -72,7 +94,7 @@ func (p *Parser) deconstructValue(rv reflect.Value, numBuffers *int) (buffers []
 			sl := rv.Len()
 			for i := 0; i < sl; i++ {
 				el := rv.Index(i)
-				b, err := p.deconstructValue(el, numBuffers)
+				b, err := p.deconstructValue(el, d)
 				if err != nil {
 					return nil, err
 				}
@@ -90,7 +112,7 @@ func (p *Parser) deconstructValue(rv reflect.Value, numBuffers *int) (buffers []
 				return nil, errBinaryCannotBeAPtr
 			}
 
-			buf, err := p.deconstructBinaryValue(rv, original, numBuffers, nil)
+			buf, err := p.deconstructBinaryValue(rv, original, d, nil)
 			if err != nil {
 				return nil, err
 			}
@@ -103,18 +125,19 @@ func (p *Parser) deconstructValue(rv reflect.Value, numBuffers *int) (buffers []
 			ne := reflect.New(rv.Type())
 			el := ne.Elem()
 			el.Set(rv)
+			d.save(original)
 			original.Set(ne)
 			rv = el
 		}
 
-		b, err := p.deconstructStruct(rv, numBuffers)
+		b, err := p.deconstructStruct(rv, d)
 		if err != nil {
 			return nil, err
 		}
 		buffers = append(buffers, b...)
 
 	case reflect.Map:
-		b, err := p.deconstructMap(rv, numBuffers)
+		b, err := p.deconstructMap(rv, d)
 		if err != nil {
 			return nil, err
 		}
@@ -127,7 +150,7 @@ func (p *Parser) deconstructValue(rv reflect.Value, numBuffers *int) (buffers []
 func (p *Parser) deconstructBinaryValue(
 	rv reflect.Value,
 	original reflect.Value,
-	numBuffers *int,
+	d *deconstruction,
 	customSetter func([]byte) error,
 ) (buf []byte, err error) {
 	if rv.CanInterface() {
@@ -137,9 +160,9 @@ func (p *Parser) deconstructBinaryValue(
 
 			phold := placeholder{
 				Placeholder: true,
-				Num:         *numBuffers,
+				Num:         d.numBuffers,
 			}
-			*numBuffers++
+			d.numBuffers++
 
 			pBuf, err := p.json.Marshal(&phold)
 			if err != nil {
@@ -152,6 +175,7 @@ func (p *Parser) deconstructBinaryValue(
 					return nil, err
 				}
 			} else if rv.CanSet() {
+				d.save(rv)
 				rv.SetBytes([]byte(pBuf))
 			} else {
 				if !original.CanSet() {
@@ -167,6 +191,7 @@ func (p *Parser) deconstructBinaryValue(
 
 				x := reflect.New(rv.Type())
 				x.Elem().Set(n)
+				d.save(original)
 				original.Set(x)
 			}
 		}
@@ -175,7 +200,7 @@ func (p *Parser) deconstructBinaryValue(
 	return
 }
 
-func (p *Parser) deconstructStruct(rv reflect.Value, numBuffers *int) (buffers [][]byte, err error) {
+func (p *Parser) deconstructStruct(rv reflect.Value, d *deconstruction) (buffers [][]byte, err error) {
 	nf := rv.NumField()
 
 	for i := 0; i < nf; i++ {
@@ -191,7 +216,7 @@ func (p *Parser) deconstructStruct(rv reflect.Value, numBuffers *int) (buffers [
 			continue
 		}
 
-		b, err := p.deconstructValue(fv, numBuffers)
+		b, err := p.deconstructValue(fv, d)
 		if err != nil {
 			return nil, err
 		}
@@ -201,7 +226,7 @@ func (p *Parser) deconstructStruct(rv reflect.Value, numBuffers *int) (buffers [
 	return
 }
 
-func (p *Parser) deconstructMap(rv reflect.Value, numBuffers *int) (buffers [][]byte, err error) {
+func (p *Parser) deconstructMap(rv reflect.Value, d *deconstruction) (buffers [][]byte, err error) {
 	iter := rv.MapRange()
 	for iter.Next() {
 		mk := iter.Key()
@@ -225,11 +250,12 @@ func (p *Parser) deconstructMap(rv reflect.Value, numBuffers *int) (buffers [][]
 
 				x := reflect.New(mv.Type())
 				x.Elem().Set(n)
+				d.undo = append(d.undo, func() { rv.SetMapIndex(mk, original) })
 				rv.SetMapIndex(mk, x)
 				return nil
 			}
 
-			buf, err := p.deconstructBinaryValue(mv, original, numBuffers, set)
+			buf, err := p.deconstructBinaryValue(mv, original, d, set)
 			if err != nil {
 				return nil, err
 			}
@@ -237,7 +263,7 @@ func (p *Parser) deconstructMap(rv reflect.Value, numBuffers *int) (buffers [][]
 			continue
 		}
 
-		b, err := p.deconstructValue(mv, numBuffers)
+		b, err := p.deconstructValue(mv, d)
 		if err != nil {
 			return nil, err
 		}
